@@ -139,6 +139,8 @@ def run(chk):
     n = 1200 if chk.tier == "quick" else 60000
     rng = chk.sub_rng("convergence")      # own stream: the ties above must not shift these scenarios
     cases = KNOWN_CORPUS + [sc.gen_convergence(rng, i) for i in range(n)]
+    split = chk.sub_rng("split-components")      # two components whose only working paths use different address pairs
+    cases += [sc.gen_split_components(split, i) for i in range(max(20, n // 25))]
     sc.run_sim(chk, cases, oracle, "sim-C01")
     return chk.finish(**FINISH)
 
